@@ -4,6 +4,7 @@ Three engines, one oracle (the oracle lives inside the sanitizer-built targets, 
   A  libFuzzer campaigns (fuzz_run: Run*/file-name entry points, fuzz_db: LoadDatabaseString), N parallel jobs
   B  grammar-level cases (Hypothesis -> persistent apirunner_asan, restarted every BATCH cases)
   C  enumerated fault sequences (unreadable inputs/databases/includes, output sinks that cannot be opened)
+  D  small-scope enumeration over the seed inputs (numeric tokens x 8 values, BASIC line/token deletions, NEXT variable)
 A target that dies (sanitizer report, signal, escaping exception, library exit, violated oracle clause) is a
 violation; libFuzzer timeouts / out-of-memory stops are resource noise (counted, never reported).
 """
@@ -22,7 +23,9 @@ RULE = ("A: libFuzzer (custom line/token/number mutator + dictionary of keywords
         "B: Hypothesis picks 1-3 valid base blocks or grammar-built blocks and applies 0-3 structural mutations each (wrong/duplicated/missing "
         "options, unknown species/phases/elements, undefined entity numbers in USE/COPY/MIX/RUN_CELLS/*_MODIFY, extreme numbers, truncated or "
         "broken BASIC, wrong keyword), run through RunString/RunAccumulated/RunFile on a new instance that has small.dat or (about 4 cases in 10) one "
-        "of 13 shipped databases loaded. C: enumerated fault list (unreadable database/input/INCLUDE$ files x entry points, 5 output sinks x 6 "
+        "of 13 shipped databases loaded. D: small-scope enumeration over the seed inputs of A: every numeric token replaced by each of 0 -1 1 "
+        "2147483647 1e308 -1e308 1e-308 nan, every BASIC line deleted / one token deleted / NEXT given another variable (thorough: exhaustive; "
+        "quick: all ':= 0', line deletions and NEXT swaps plus slice VERIF_SEED mod 24 of the rest). C: enumerated fault list (unreadable database/input/INCLUDE$ files x entry points, 5 output sinks x 6 "
         "unopenable path kinds x 3 entry points, file names inside the input text), each followed by reload + probe. "
         "Oracle per call (inside the sanitizer-built target): returns (no signal, ASan/UBSan report, escaping exception, exit); rc!=0 <=> error "
         "string non-empty <=> error line count>0; warning string/line count agree; markers planted with AddError/AddWarning before the call are "
@@ -51,9 +54,14 @@ SHARDS = {"quick": 8, "thorough": 16}
 # 110 for the empty-corpus leg, 30 ms per grammar case.  Quick is sized for about 55 CPU-seconds per shard (the replay tier
 # of core runs before the shards and costs about 1 s per file plus ~15-30 s for the non-converging kinetics regression),
 # thorough for 800 CPU-seconds per shard.
-FUZZ_RUNS = {"quick": {"fuzz_run": 2000, "fuzz_db": 1700}, "thorough": {"fuzz_run": 28000, "fuzz_db": 24000}}
+FUZZ_RUNS = {"quick": {"fuzz_run": 1400, "fuzz_db": 1200}, "thorough": {"fuzz_run": 25000, "fuzz_db": 21000}}
 EMPTY_LEG_RUNS = {"quick": 400, "thorough": 4000}            # fuzz_run from an empty corpus (dictionary only), shard 0
-GRAMMAR_CASES = {"quick": 150, "thorough": 1500}              # per shard
+GRAMMAR_CASES = {"quick": 120, "thorough": 1500}              # per shard
+# engine D (small-scope enumeration over the seed inputs, vp/c08_gen.enum_cases: ~25 000 cases, 42 ms CPU each + 8 s per
+# non-terminating one).  Thorough runs all of it.  Quick always runs the core sub-space (every numeric token := 0, every
+# BASIC line deleted, every NEXT with another loop variable: ~3 100 cases) and the slice (VERIF_SEED mod ENUM_SLICE) of the rest.
+ENUM_SLICE = {"quick": 24, "thorough": 1}
+ENUM_CASE_TIMEOUT_S = 8
 FUZZ_TIMEOUT_S = {"quick": 10, "thorough": 25}
 MAX_LEN = {"fuzz_run": 6002, "fuzz_db": 12000}
 BATCH = 200
@@ -421,7 +429,7 @@ class Runner:
         except (BrokenPipeError, OSError):
             pass
         while True:
-            l = self._line(self.case_timeout)
+            l = self._line(_timeout_override or self.case_timeout)
             if l == "TIMEOUT":
                 self.close(kill=True)
                 return ("timeout",)
@@ -467,6 +475,7 @@ class Runner:
 
 
 _runner = None
+_timeout_override = None      # shorter per-case limit while engine D runs (huge loop bounds are part of its sub-space)
 
 
 def get_runner(ctx):
@@ -508,6 +517,8 @@ def api_classes(case, res):
             cl.append("B:has_grammar_block")
         if "tail" in meta.get("blocks", []):
             cl.append("B:has_entity_tail")
+    if eng == "D":
+        cl.append("D:op=" + meta.get("op", "?") + ((":" + meta["value"]) if meta.get("op") == "num" else ""))
     return cl
 
 
@@ -612,6 +623,63 @@ def plan(tier, shard, nshards):
     return jobs
 
 
+def enum_core(meta):
+    return (meta["op"] == "num" and meta["value"] == "0") or meta["op"] in ("basic_next_variable", "basic_delete_line")
+
+
+def enum_selection(tier, seed):
+    """indices of the enumeration run by this (tier, seed): the core sub-space plus one slice of the rest"""
+    cases, excl = G.enum_cases(lib.REPO)
+    k = ENUM_SLICE.get(tier, 1)
+    sel, r = [], 0
+    for idx, (_, _, meta) in enumerate(cases):
+        if enum_core(meta):
+            sel.append(idx)
+        else:
+            if r % k == seed % k:
+                sel.append(idx)
+            r += 1
+    return cases, excl, sel
+
+
+def enum_leg(ctx):
+    global _timeout_override
+    cases, excl, sel = enum_selection(ctx.tier, ctx.seed)
+    if SCALE < 1:
+        sel = sel[::max(int(1 / SCALE), 1)]
+    mine = sel[ctx.shard::ctx.nshards]
+    ran = 0
+    _timeout_override = ENUM_CASE_TIMEOUT_S
+    try:
+        for idx in mine:
+            name, text, meta = cases[idx]
+            case = G.enum_case(name, text, meta, idx)
+            ctx.begin(case)
+            try:
+                info = check_api(case, ctx, persistent=True)
+            except Discard as d:
+                ctx.discard("D:" + d.why)
+                continue
+            except Violation as v:
+                ctx.failures.append({"case": case, "oracle": v.oracle, "message": ("enumeration %s %r: " % (name, meta)) + v.msg[:3500], "test": "enum"})
+                continue
+            ctx.record(case, info.get("nontrivial", False), info.get("classes", ()))
+            ran += 1
+    finally:
+        _timeout_override = None
+    ctx.extra["enum_run"] = ran
+    if ctx.shard == 0:
+        ctx.extra["enum_total"] = len(cases)
+        ctx.extra["enum_selected"] = len(sel)
+        ctx.extra["enum_core"] = sum(1 for _, _, m in cases if enum_core(m))
+        ctx.extra["enum_excluded_big_value_on_count_like_line"] = excl["count_like_big"]
+        ctx.extra["enum_excluded_int_max_user_number_known_K3"] = excl["known_K3_user_number"]
+        ctx.extra["enum_exhaustive"] = bool(ENUM_SLICE.get(ctx.tier, 1) == 1 and SCALE >= 1)
+        ctx.extra["enum_subspace"] = ("%d seed inputs x (each numeric token := one of %s; each BASIC line deleted / one token deleted / NEXT given another "
+                                      "variable); %s" % (len(G.enum_seed_texts(lib.REPO)), " ".join(G.ENUM_VALUES),
+                                                         "all of it" if ENUM_SLICE.get(ctx.tier, 1) == 1 else "core (:= 0, line deleted, NEXT variable) + slice %d of %d of the rest" % (ctx.seed % ENUM_SLICE[ctx.tier], ENUM_SLICE[ctx.tier])))
+
+
 def run(ctx):
     global _runner
     for target, runs, tag, seeded in plan(ctx.tier, ctx.shard, ctx.nshards):
@@ -635,6 +703,7 @@ def run(ctx):
     ctx.extra["fault_list"] = done
     ctx.extra["faults_enumerated"] = len(faults) if ctx.shard == 0 else 0
     ctx.extra["faults_run"] = len(done)
+    enum_leg(ctx)
     # engine B
     ctx.hyp(G.api_case(), lambda c: check_api(c, ctx, persistent=True), max(int(GRAMMAR_CASES[ctx.tier] * SCALE), 20), "grammar")
     if _runner is not None:
